@@ -197,6 +197,23 @@ def el_mined(R, count, maxlen=14):
         yield concretise(ab)
 
 
+def el_infinite(R, count):
+    """histories in which several events are due at +infinity ("never", used as a timestamp) next to finite ones: they are
+    events like any other -- refused never, popped last, in the order they were requested"""
+    inf = float("inf")
+    for _ in range(count):
+        ops, tag = [], 0
+        for _ in range(R.randint(4, 14)):
+            ts = inf if R.random() < 0.6 else R.choice([0.0, 1.0, 2.0, 1e300, 1.7e308])
+            ops.append(("sched", ts, tag)); tag += 1
+            if R.random() < 0.15:
+                ops.append(("peek",))
+        ops += [("len",)] + [("pop",)] * (tag + 1)
+        if R.random() < 0.5:
+            ops += [("sched", inf, tag), ("sched", inf, tag + 1), ("pop",), ("pop",), ("now",)]
+        yield ops
+
+
 def el_long(R, n_ops, burst=0):
     """one long history: optionally a burst of `burst` schedules into an empty queue, then a long
     alternation with a small queue and many ties"""
@@ -313,6 +330,12 @@ def run_sim_class(chk, cls, scs, mons, variant=None, batch=250, tag=None):
             sc["late_config"] = True           # configuration objects filled in AFTER they were handed to handler / builder
         if "nodes_first" not in sc and k % 4 == 3:
             sc["nodes_first"] = True           # builder.add_node(...) for every node BEFORE the handlers are added
+        if "positional_config" not in sc and k % 3 == 0:
+            sc["positional_config"] = True     # configuration dataclasses built from positional arguments (the documented field order)
+        if "two_controllers" not in sc and "fresh_controllers" not in sc and k % 4 == 1:
+            sc["two_controllers"] = True       # range requests alternate between two kept CommunicationController objects
+        if "cross_flags" not in sc and k % 3 == 2 and len(sc["nodes"]) > 1:
+            sc["cross_flags"] = True           # what an assertion reads about a node is written by ANOTHER node's callbacks
         if "poll_inside" not in sc and k % 6 == 3:
             sc["poll_inside"] = True           # is_simulation_done() asked from inside the callbacks (a read-only query)
         if "interloper" not in sc and k % 5 == 4:
@@ -382,7 +405,7 @@ def run_sim_class(chk, cls, scs, mons, variant=None, batch=250, tag=None):
 
 def _brief(sc):
     d = {k: sc[k] for k in ("handlers", "nodes", "med", "mob", "asserts", "seed", "dur", "maxit", "drv", "script")}
-    for k in ("reuse_commands", "fresh_controllers", "odd_names", "truthy_preds", "build_twice", "poll_done", "int_numbers", "enum_names", "raw_commands", "rerun", "late_config", "nodes_first", "interloper", "poll_inside", "variant", "stream"):
+    for k in ("reuse_commands", "fresh_controllers", "odd_names", "truthy_preds", "build_twice", "poll_done", "int_numbers", "enum_names", "raw_commands", "rerun", "late_config", "nodes_first", "interloper", "poll_inside", "positional_config", "two_controllers", "cross_flags", "variant", "stream"):
         if k in sc:
             d[k] = sc[k]
     return d
@@ -513,7 +536,12 @@ def check_C01(chk, R, S):
     run_sim_class(chk, "sim-external-requests", [gen_drive_scenario(R, ("settimer", "send", "bcast", "cancel")) for _ in range(max(60, S["sims"] // 5))], [M.mon_C01])
     run_el_class(chk, "el-chronological", el_chrono(R, max(200, S["el_rand"] // 4)))
     run_el_class(chk, "el-around-source-constants", el_mined(R, max(300, S["el_rand"] // 4)))
+    run_el_class(chk, "el-events-at-infinity", el_infinite(R, 200))
     _crowd_class(chk, R, [M.mon_C01])
+    # the same scenarios in a child interpreter started with optimisations on (asserts stripped): same traces
+    import subproc_matrix
+    subproc_matrix.run(chk, gen_many(R, 8, {"p_assert": 0.0}), R, light=True, hashseeds=("1",), env_extra={"PYTHONOPTIMIZE": "1"},
+                       what="PYTHONOPTIMIZE=1, PYTHONHASHSEED")
     chk.exhaustive = True
 
 
@@ -532,6 +560,7 @@ def check_C02(chk, R, S):
     run_sim_class(chk, "sim-many-nodes-timers", [gen_many_nodes_timers(R) for _ in range(max(12, S["sims"] // 20))], [M.mon_C02])
     run_el_class(chk, "el-chronological", el_chrono(R, max(200, S["el_rand"] // 4)))
     run_el_class(chk, "el-around-source-constants", el_mined(R, max(300, S["el_rand"] // 4)))
+    run_el_class(chk, "el-events-at-infinity", el_infinite(R, 200))
     chk.exhaustive = True
 
 
@@ -548,6 +577,7 @@ def check_C03(chk, R, S):
     run_sim_class(chk, "sim-decimal-ties", [gen_decimal_ties(R) for _ in range(max(60, S["sims"] // 5))], [M.mon_C03])
     run_el_class(chk, "el-chronological", el_chrono(R, max(200, S["el_rand"] // 4)))
     run_el_class(chk, "el-around-source-constants", el_mined(R, max(300, S["el_rand"] // 4)))
+    run_el_class(chk, "el-events-at-infinity", el_infinite(R, 200))
     chk.exhaustive = True
 
 
@@ -816,6 +846,15 @@ def check_C05(chk, R, S):
         if R.random() < 0.1:
             sc["dur"], sc["maxit"] = R.choice([(0.0, None), (None, 0), (None, 1)])
     run_sim_class(chk, "sim-lifecycle", scs, [M.mon_C05])
+    # the same life cycles paced against the wall clock, blocking: runs that are over before their first event included
+    paced = []
+    for sc in scs[:max(60, len(scs) // 3)]:
+        c = copy.deepcopy(sc)
+        c["drv"] = ("run",)
+        if R.random() < 0.4:
+            c["dur"], c["maxit"] = R.choice([(0.0, None), (None, 0), (0.001, None), (None, 1)])
+        paced.append(c)
+    run_sim_class(chk, "sim-lifecycle-paced", paced, [M.mon_C05], variant={"real_time": 1e6})
     # mixed driving: some manual steps then the blocking call; the blocking call twice
     mixed = gen_many(R, max(60, S["sims"] // 3), dict(prof, p_steps=0.0))
     for sc in mixed:
@@ -1038,6 +1077,27 @@ def gen_range_around_constants(R):
     return out
 
 
+def gen_range_toggling(R):
+    """a sender that keeps switching its range between a few values (A, B, A, ...; through two controller objects, one,
+    or a fresh one each time) and transmits after every switch; receivers sit between the values"""
+    vals = R.sample([2.0, 5.0, 10.0, 20.0, 0.0], R.randint(2, 3))
+    nn = R.randint(2, 5)
+    nodes = [{"pos": (0.0, 0.0, 0.0), "ty": 0}] + [{"pos": (R.choice([1.0, 3.0, 7.0, 15.0, 25.0]), 0.0, 0.0), "ty": 0} for _ in range(nn - 1)]
+    msg = itertools.count(0)
+    rules = [{"trig": ("init",), "nth": None, "acts": [("settimer", 0, "abs", 0.5)]}]
+    for k in range(R.randint(3, 8)):
+        rules.append({"trig": ("timer", 0), "nth": k, "acts": [("range", vals[k % len(vals)]), ("bcast", next(msg)), ("settimer", 0, "rel", 0.5)]})
+    sc = {"handlers": R.sample(["T", "C"], 2), "nodes": nodes, "med": (R.choice([6.0, 12.0]), R.choice([0.0, 0.25]), 0.0),
+          "mob": (1.0, 1.0, (0.0, 0.0, 0.0)), "asserts": [], "seed": 1, "dur": None, "maxit": None, "drv": ("run",),
+          "script": [rules] + [[] for _ in range(nn - 1)]}
+    m = R.random()
+    if m < 0.5:
+        sc["two_controllers"] = True
+    elif m < 0.75:
+        sc["fresh_controllers"] = True
+    return sc
+
+
 def check_C07(chk, R, S):
     chk.rule = ("1-4 nodes x 3 timer names; set/cancel from init, timer, packet and telemetry callbacks, re-entrant "
                 "same-name cancel/set inside the firing handler, ties, past timers, timer storms, requests for one instant made at "
@@ -1200,6 +1260,7 @@ def check_C09(chk, R, S):
     _crowd_class(chk, R, [M.mon_C09])
     run_sim_class(chk, "sim-range-set-before-start", [gen_range_before_start(R, everybody=False) for _ in range(max(30, S["sims"] // 10))], [M.mon_C09])
     run_sim_class(chk, "sim-range-around-source-constants", gen_range_around_constants(R), [M.mon_C09])
+    run_sim_class(chk, "sim-range-toggling", [gen_range_toggling(R) for _ in range(max(40, S["sims"] // 6))], [M.mon_C09])
     # the range gate on a lossy medium, the draws scripted (mostly above the rate): delivered iff in range AND the draw passes
     lossy = []
     for _ in range(max(40, S["sims"] // 5)):
@@ -1497,6 +1558,26 @@ def gen_pair_C13_burst(R, size):
     return with_, copy.deepcopy(base), x, "silent-burst"
 
 
+def gen_pair_C13_parked(R):
+    """the silent node is given a target and then parked (speed 0) before the others set off; the others travel to targets at
+    very different distances, so that one arrives while another is still on its way"""
+    nn = R.randint(3, 5)
+    x = R.choice([0, 0, R.randrange(nn)])
+    script = []
+    for me in range(nn):
+        far = R.choice([1.0, 2.0, 30.0, 100.0])
+        script.append([{"trig": ("init",), "nth": None, "acts": [("goto", far, float(me), 0.0)] + ([("speed", R.choice([2.0, 5.0]))] if R.random() < 0.5 else [])}])
+    base = {"handlers": R.sample(["T", "M"], 2), "nodes": [{"pos": (0.0, float(i), 0.0), "ty": 0} for i in range(nn)],
+            "med": (100.0, 0.0, 0.0), "mob": (R.choice([0.1, 0.25, 0.5]), R.choice([5.0, 10.0]), (0.0, 0.0, 0.0)), "asserts": [], "seed": 1,
+            "dur": R.choice([2.0, 4.0]), "maxit": None, "drv": ("run",), "script": script}
+    with_ = copy.deepcopy(base)
+    with_["script"][x] = [{"trig": ("init",), "nth": None, "acts": [("goto", 0.0, 500.0, 0.0), ("speed", 0.0)]}] + \
+                         ([{"trig": ("telem",), "nth": R.randrange(3, 12), "acts": [("speed", 3.0)]}] if R.random() < 0.4 else [])
+    without = copy.deepcopy(base)
+    without["script"][x] = []
+    return with_, without, x, "silent-parked"
+
+
 def check_C13(chk, R, S):
     chk.rule = ("paired runs: a scenario with and without a sequence of node-scoped requests (set/cancel timer, goto, "
                 "speed, range) by a silent existing node or by one additional node; the other nodes' callbacks, times, "
@@ -1506,6 +1587,7 @@ def check_C13(chk, R, S):
     run_corpus(chk, [])
     pairs = [gen_pair_C13(R) for _ in range(S["sims"] * 3)] + [gen_pair_C13_coincide(R) for _ in range(S["sims"])] + \
             [gen_pair_C13_crossing(R) for _ in range(max(20, S["sims"] // 5))] + \
+            [gen_pair_C13_parked(R) for _ in range(max(20, S["sims"] // 5))] + \
             [gen_pair_C13_burst(R, n) for n in mined_burst_sizes() if n <= 12000]
     ra = corr.corr_sims([p[0] for p in pairs])
     rb = corr.corr_sims([p[1] for p in pairs])
@@ -1606,6 +1688,26 @@ def check_C18(chk, R, S):
                                 "med": (60.0, 0.0, 0.0), "mob": (1.0, 1.0, (0.0, 0.0, 0.0)), "asserts": [kind], "seed": 1, "dur": None,
                                 "maxit": None, "drv": ("run",), "script": script})
     run_sim_class(chk, "assert-flag-windows-exhaustive", win, [M.mon_C18])
+    # what an assertion reads about one node is written by another node's callback: every choice of writer, of the instant,
+    # and of whether the node read about has callbacks of its own afterwards
+    cross = []
+    for nn in (2, 3):
+        for w in range(nn):
+            for kind in (("AP", 0), ("ASIM", "all"), ("EP", 0), ("ESIM", "all")):
+                for busy in (False, True):
+                    up = kind[0] in ("AP", "ASIM")
+                    script = []
+                    for me in range(nn):
+                        # (an event before the write, so that the assertions have been looked at once already)
+                        rules = [{"trig": ("init",), "nth": None, "acts": [("flag", up)] + ([("settimer", 2, "abs", 0.5), ("settimer", 0, "abs", 1.0)] if me == w else [])
+                                  + ([("settimer", 1, "abs", 2.0)] if busy else [])}]
+                        if me == w:
+                            rules.append({"trig": ("timer", 0), "nth": None, "acts": [("flag", not up)]})
+                        script.append(rules)
+                    cross.append({"handlers": ["T", "R0", "A"], "nodes": [{"pos": (float(i), 0.0, 0.0), "ty": 0} for i in range(nn)],
+                                  "med": (60.0, 0.0, 0.0), "mob": (1.0, 1.0, (0.0, 0.0, 0.0)), "asserts": [kind], "seed": 1, "dur": None,
+                                  "maxit": None, "drv": ("run",), "script": script, "cross_flags": True})
+    run_sim_class(chk, "assert-cross-node-writes-exhaustive", cross, [M.mon_C18])
     # small-scope exhaustive: 1 node, timeline of flag values over 3 events x every assertion kind
     ex = []
     for bits in itertools.product([0, 1], repeat=4):
@@ -2020,6 +2122,8 @@ def gen_trip_case(R, scripted=False, maxops=14):
         case["decoy"] = True     # the protocol also owns an idle mission plugin and a second trip plugin that never starts
     if R.random() < 0.3:
         case["kept_ref"] = True  # telemetry delivered through a bound method looked up once, after the plugin was created
+    if R.random() < 0.3 and not any(op[0] in ("telem+finish", "telem+init") for op in ops):
+        case["mute"] = True      # after the first trip an INTERRUPTing telemetry filter is registered on the protocol, for good
     return case
 
 
@@ -2072,6 +2176,12 @@ def check_C19(chk, R, S):
         c["nodes"] = list(c["nodes"]) + [(R.uniform(-25, 25), R.uniform(-25, 25), R.uniform(-5, 25)) for _ in range(R.randint(30, 80))]
         crowd.append(c)
     run_plugin_class(chk, "camera-crowded-scenes", crowd, impl, G.camera_to_text, mon)
+    ext = []
+    for _ in range(max(30, S["sims"] // 8)):
+        c = G.gen_camera_case(R)
+        c["reach"] = R.choice([1e300, 1.7e308, 1e200, 1e-300, 5e-324, float("inf")])
+        ext.append(c)
+    run_plugin_class(chk, "camera-extreme-reach", ext, impl, G.camera_to_text, mon)
     run_plugin_class(chk, "camera-two-pictures", [G.gen_two_pictures_case(R) for _ in range(S["sims"] * 2)], impl, G.camera_to_text, mon)
     # translation invariance on exactly representable scenes
     n_pairs = 0
@@ -2174,6 +2284,14 @@ def gen_interop_case(R, with_cancel=False):
         if R.random() < 0.3:
             cb["tracks"] = [(R.randrange(5), R.randrange(100) if R.random() < 0.6 else 1000 + R.randrange(12)) for _ in range(R.randint(1, 3))]
     case = {"nid": nid, "ty": R.choice([0, 1, 2]), "rules": rules, "cbs": cbs, "id_first": R.random() < 0.5}
+    if R.random() < 0.4:
+        case["reuse"] = True             # the protocol keeps one command object per kind and re-fills it for every request
+    if R.random() < 0.5:
+        case["real_mobility"] = True     # on the python side the requests reach the real mobility handler (which records them first)
+        if case.get("reuse"):
+            # ... several geographic and cartesian gotos from the one re-filled command object
+            rules.append({"trig": R.choice([("timer", None), ("telem",), ("packet", None)]), "nth": None,
+                          "acts": [gen_sim.gen_action(R, {"acts": ["gotogeo", "gotogeo", "goto"]}, 4, nid) for _ in range(R.randint(2, 3))]})
     if R.random() < 0.35:
         # a plugin switched on in the middle of the session (from inside a callback, after callbacks of the kind it
         # hooks were already delivered): from then on its handler issues one more request per callback of that kind
@@ -2191,8 +2309,13 @@ def check_C14(chk, R, S):
                 "extension) fed identical callback sequences with identical times and ids under InteropEncapsulator and "
                 "under PythonEncapsulator with recording handlers; several encapsulators alive in one process; the "
                 "extension x provider matrix exhaustively; one probe of cancel_timer (known finding)")
-    cases = [gen_interop_case(R) for _ in range(S["sims"] * 3)]
-    run_plugin_class(chk, "interop-sessions", cases, I.run_interop_impl, I.interop_to_text, I.mon_C14)
+    cases = [item["case"] for item in corpus("C14")] + [gen_interop_case(R) for _ in range(S["sims"] * 3)]
+    for c in cases:
+        # (json turns the tuples of a stored case into lists)
+        for r in c["rules"]:
+            r["trig"] = tuple(r["trig"])
+            r["acts"] = [tuple(a) for a in r["acts"]]
+    run_plugin_class(chk, "interop-sessions", cases, I.run_interop_impl, I.interop_to_text, I.mon_C14, guard=False)
     # the known limitation is probed on every run
     probe = {"nid": 0, "ty": 0, "rules": [{"trig": ("init",), "nth": None, "acts": [("settimer", 0, "abs", 1.0), ("cancel", 0)]}],
              "cbs": [{"t": 0.0, "kind": "init", "arg": None}]}
